@@ -557,7 +557,9 @@ class Interp:
             if isinstance(n.op, ast.Invert) and isinstance(v, VI) and v.kind == "int":
                 if v.const is not None:
                     raise Unsupported("invert of constant")
-                return s.mk(s.bv(2 ** v.w - 1) - v.v, v.w, v.ok, v.lw, v.hi + 2 ** v.w, None, v.okl)
+                # python's ~x is -x-1: it leaves the range of the unsigned type, so (as for any
+                # wrap-around) only the low w bits are determined - they are those of 2^w-1-x
+                return s.mk(~v.v, v.w, v.ok, v.lw, v.hi + 1, None, v.okl)
             raise Unsupported("unary operator")
         if isinstance(n, ast.BinOp):
             if isinstance(n.op, ast.Pow):
@@ -618,7 +620,7 @@ class Interp:
             cargs = []
             try:
                 for a, fa in zip(args, fd.args.args):
-                    cargs.append(s.coerce(a, parse_type(fa.annotation)))
+                    cargs.append(s.coerce(a, parse_type(fa.annotation), widen=True))
                 r = sub.call(cargs)
                 s.maxhi = max(s.maxhi, sub.maxhi)
                 s.undef = z3.Or(s.undef, sub.undef)
@@ -689,8 +691,10 @@ class Interp:
             return VI(s.bv(c % 2 ** w), w, T, None, 2 ** w, const=c % 2 ** w)
         raise Unsupported("call " + f)
 
-    def coerce(s, v, t):
-        """value passed to / returned through a declared type: widen (zero fill) or crop"""
+    def coerce(s, v, t, widen=False):
+        """value passed to / returned through a declared type: widen (zero fill) or crop.
+        widen: an actual argument - narrower elements of a tuple are zero-extended one by one to
+        the widths of the formal's element types, like a narrower scalar actual"""
         if t[0] == "bool":
             if isinstance(v, VB):
                 return v
@@ -723,9 +727,9 @@ class Interp:
                 raise Unsupported("tuple shape")
             out = []
             for x, tt in zip(v, t[1]):
-                if tt[0] in ("int", "char") and isinstance(x, VI) and x.w != width(tt):
+                if tt[0] in ("int", "char") and isinstance(x, VI) and x.w != width(tt) and not (widen and x.w < width(tt)):
                     raise Unsupported("tuple element width differs from declared type")
-                out.append(s.coerce(x, tt))
+                out.append(s.coerce(x, tt, widen))
             return tuple(out)
         raise Unsupported("coerce")
 
@@ -805,7 +809,7 @@ def reference(src_or_fdef, funs=None, param_values=None):
     B = max(8, it.maxhi.bit_length() + 3, maxw(rett) + 3, *[maxw(t) + 3 for t in argt] or [0])
     B = min(B, 64)
     it, want = run(B)
-    return dict(args=[(a.arg, t) for a, t in zip(fdef.args.args, argt)], argbits=argbits, ret_type=rett, retbits=bit_names(rett, "_ret"), want=want, undef=it.undef, B=B)
+    return dict(args=[(a.arg, t) for a, t in zip(fdef.args.args, argt)], argbits=argbits, ret_type=rett, retbits=bit_names(rett, "_ret"), want=want, undef=it.undef, B=B, has_invert=any(isinstance(x, ast.Invert) for f in [fdef] + list((funs or {}).values()) for x in ast.walk(f)))
 
 
 def _lit(v):
